@@ -582,6 +582,32 @@ func TestVerifC10TilePath(t *testing.T) {
 }
 
 func c10MutateStr(t *rapid.T, s string) []byte {
+	// structural near-misses of a canonical path
+	switch rapid.IntRange(0, 11).Draw(t, "structural") {
+	case 0:
+		s = strings.TrimPrefix(s, "tile/")
+	case 1:
+		s = "tile/" + s
+	case 2:
+		s = "/" + s
+	case 3:
+		s = s + "/"
+	case 4:
+		s = strings.Replace(s, "tile/", "tile/8/", 1)
+	case 5:
+		s = strings.Replace(s, "tile/", "tile//", 1)
+	case 6:
+		s = strings.ToUpper(s)
+	case 7:
+		s = strings.Replace(s, "tile/names/", "tile/names/data/", 1)
+	case 8:
+		s = strings.Replace(s, "/", "\\", 1)
+	case 9:
+		s = " " + s
+	}
+	if rapid.IntRange(0, 2).Draw(t, "alsoBytes") != 0 {
+		return []byte(s)
+	}
 	b := []byte(s)
 	alphabet := []byte("0123456789x/.p-+ \x00tiledanms")
 	for k := rapid.IntRange(0, 2).Draw(t, "smut"); k > 0; k-- {
@@ -618,7 +644,8 @@ func FuzzVerifC10ReadTileLeaf(f *testing.F) {
 }
 
 func FuzzVerifC10ParseTilePath(f *testing.F) {
-	for _, s := range []string{"tile/0/000", "tile/data/x001/234.p/5", "tile/names/000.p/255", "tile/63/x999/x999/999", "tile/8/data/000", "tile/-1/000", "tile/names/", "tile/0/000.p/256", "tile/0/000.p/0", "tile/00/000", "tile/0/x000/000", "tile/names/data/000", "tile/+1/000", "tile/1/000.p/+5", "tile/0/0x0"} {
+	for _, s := range []string{"tile/0/000", "tile/data/x001/234.p/5", "tile/names/000.p/255", "tile/63/x999/x999/999", "tile/8/data/000", "tile/-1/000", "tile/names/", "tile/0/000.p/256", "tile/0/000.p/0", "tile/00/000", "tile/0/x000/000", "tile/names/data/000", "tile/+1/000", "tile/1/000.p/+5", "tile/0/0x0",
+		"data/000", "0/000", "names/000.p/1", "8/0/000", "tile/8/0/000", "/tile/0/000", "tile/0/000/", "TILE/0/000", "tile/tile/0/000"} {
 		f.Add(s)
 	}
 	f.Fuzz(func(t *testing.T, p string) { c10CheckParsePath(t, p) })
